@@ -129,6 +129,11 @@ Engine *make_engine(); // defined by each engine's harness
 extern char *arena;              // 1 GiB aligned
 extern size_t arena_size;
 inline bool in_arena(const void *p) { return (size_t)((const char *)p - arena) < arena_size; }
+// An engine may declare aux_bytes of address space directly behind the arena as its own (simslab: reserved space for huge
+// mappings). Instrumented accesses there are reported to Engine::on_access and hashed, but are neither scheduling points
+// nor seen by the race detector (there is no shadow for them).
+extern size_t aux_bytes;
+inline bool in_aux(const void *p) { return (size_t)((const char *)p - arena) - arena_size < aux_bytes; }
 inline uint64_t off(const void *p) { return (uint64_t)((const char *)p - arena); }
 
 RunResult execute(Engine *e, const Plan &p);   // one deterministic run
